@@ -16,7 +16,7 @@ Property search: table rows where pyanalyze disagrees with CPython (any row, qui
 seeded random literals, thorough: a widened universe), getitem cases where an expansion's element is outside the
 revealed type or IndexError <-> diagnostic fails for a fully known tuple.
 """
-import itertools, json, os, types, warnings
+import hashlib, itertools, json, os, re, sys, types, warnings
 import enum as _enum
 
 from harness.common import lean, pya
@@ -96,10 +96,20 @@ class C6: pass
 class C7: pass
 class C8: pass
 class C9: pass
+import sys, os
+class IF(enum.IntFlag):
+    R = 1
+    W = 2
+class K:
+    x = 1
+    def m(self):
+        return 0
+def fn(x):
+    return x
 '''
 
 TAGS = {"int": 1, "bool": 2, "float": 3, "complex": 4, "str": 5, "bytes": 6, "tuple": 7, "none": 8, "enum": 9,
-        "intenum": 10, "cls": 11, "clsidx": 12, "module": 13}
+        "intenum": 10, "cls": 11, "clsidx": 12, "module": 13, "list": 14, "dict": 15, "set": 16, "ellipsis": 17, "func": 18}
 
 # (source text, is written as a dotted name)
 QUICK_OPERANDS = [
@@ -153,8 +163,13 @@ def tag_of(v):
         return "clsidx" if "__index__" in dir(v) and v is not type and not issubclass(v, type) and _inst_index(v) else "cls"
     if isinstance(v, types.ModuleType):
         return "module"
+    if v is Ellipsis:
+        return "ellipsis"
+    if callable(v):
+        return "func"
     t = type(v)
-    return {bool: "bool", int: "int", float: "float", complex: "complex", str: "str", bytes: "bytes", tuple: "tuple"}[t]
+    return {bool: "bool", int: "int", float: "float", complex: "complex", str: "str", bytes: "bytes", tuple: "tuple",
+            list: "list", dict: "dict", set: "set", frozenset: "set"}[t]
 
 
 def _inst_index(cls):
@@ -175,8 +190,10 @@ def canon(v, depth=0):
         return ("float", v.hex() if v == v else "nan")
     if t is complex:
         return ("complex", canon(v.real)[1] + "," + canon(v.imag)[1])
-    if t is str or t is bytes:
-        return (t.__name__, repr(v))
+    if t is str:
+        return ("str", pya.norm(repr(v)))
+    if t is bytes:
+        return ("bytes", repr(v))
     if t is tuple and depth < 5:
         return ("tuple", "(" + ";".join("%s:%s" % canon(x, depth + 1) for x in v) + ")")
     if isinstance(v, _enum.Enum):
@@ -328,20 +345,43 @@ def bin_flags(ns, case):
 
 
 def attr_flags(ns, case):
-    import inspect
     kind, name, a, _ = case
-    o = eval(a, ns)
-    fl = int(name in IGNORED_END) + 2 * int(_dotted(a))
+    return attr_fact_bits(eval(a, ns), name, a)
+
+
+def attr_fact_bits(o, name, src):
+    """CPython-derived input facts of one attribute access (bit mask; legend in Spec/OpsSpec.lean):
+    0 name in the pinned IgnoredEndOfReference default   1 operand written as a dotted name
+    2 class operand, static lookup along its own MRO finds a property-like descriptor
+    3 class operand with a closed attribute set          4 hooked by pyanalyze's default KnownAttributeHook (sys.modules)
+    5 operand is a class   6 operand is a module   7 module operand and the name is in its __annotations__
+    8 type(operand) has __getattr__   9 class operand and the name is in the __dict__ of a class of its MRO
+    10 class operand that is an Enum subclass"""
+    import inspect
+    fl = int(name in IGNORED_END) + 2 * int(_dotted(src))
     if isinstance(o, type):
+        fl += 32
         try:
             st = inspect.getattr_static(o, name)
         except AttributeError:
             st = None
         own = any(name in k.__dict__ for k in o.__mro__)
+        if own:
+            fl += 512
         if own and isinstance(st, (types.GetSetDescriptorType, types.MemberDescriptorType, property, types.DynamicClassAttribute)):
             fl += 4
         if closed_class(o):
             fl += 8
+        if issubclass(o, _enum.Enum):
+            fl += 1024
+    if isinstance(o, types.ModuleType):
+        fl += 64
+        if name in getattr(o, "__annotations__", {}):
+            fl += 128
+        if o is sys and name == "modules":
+            fl += 16
+    if type_lookup(type(o), "__getattr__") is not None:
+        fl += 256
     return fl
 
 
@@ -357,7 +397,7 @@ def closed_class(o):
     return o.__module__ in ("builtins", "types", "enum", "collections", "collections.abc", "typing")
 
 
-def pya_verdicts(exprs, batch=1500):
+def pya_verdicts(exprs, batch=1500, want_module=False):
     """[(p, canon-or-None, codes)] for each expression: p 0 literal, 1 non-literal, 2 diagnosed, 3 unexpected code."""
     from pyanalyze.value import AnnotatedValue, KnownValue
     res = []
@@ -368,7 +408,7 @@ def pya_verdicts(exprs, batch=1500):
         src += "".join("    reveal_type(%s)\n" % e for e in chunk)
         with warnings.catch_warnings():
             warnings.simplefilter("ignore")
-            fails, tree, _ = pya.check_source(src, annotate=True)
+            fails, tree, mod = pya.check_source(src, annotate=True)
         by = {}
         for f in fails:
             if f["code"] != "reveal_type" and f["lineno"] is not None:
@@ -389,6 +429,9 @@ def pya_verdicts(exprs, batch=1500):
                     res.append((0, ("opaque:?", "?"), codes))
             else:
                 res.append((1, None, codes))
+    if want_module:
+        assert len(exprs) <= batch
+        return res, mod
     return res
 
 
@@ -421,6 +464,186 @@ def build_rows(ns, operands, cases, intern_t, intern_v, with_impl=True):
         row = (kid[kind], opid[(kind, op)], idx[a], idx.get(b, 0), tags[a], tags.get(b, 0), fl, c, ct, cv, p, pt, pvv)
         out.append({"case": case, "expr": expr, "row": row, "cpy": (c, cval), "pya": (p, plit, codes), "sidevals": sidevals})
     return out
+
+
+# ------------------------------------------------------------------------------------------------ attribute table
+# every operand class of the universe x every attribute name any of them has (+ names nobody has)
+ATTR_OPERANDS = [
+    "0", "1", "(-1)", "255", "True", "False", "0.0", "1.5", "2j",
+    "''", "'abc'", "b''", "b'ab'",
+    "()", "(1, 2)", "((1, 2), 3)", "[1, 2]", "{'a': 1}", "{1, 2}",
+    "None", "...",
+    "E.A", "IE.A", "EN.A", "EP.A", "FL.R", "IF.R",
+    "int", "str", "bool", "float", "tuple", "list", "dict", "type", "object", "E", "IE", "FL", "IF", "K", "enum.Enum",
+    "math", "enum", "types", "os.path", "sys",
+    "fn", "len", "math.sqrt", "K.m",
+]
+ATTR_GROUPS = {"int": "num", "bool": "num", "float": "num", "complex": "num", "str": "text", "bytes": "text",
+               "tuple": "seq", "list": "seq", "dict": "seq", "set": "seq", "none": "single", "ellipsis": "single",
+               "enum": "member", "intenum": "member", "cls": "cls", "clsidx": "cls", "module": "module", "func": "func"}
+ATTR_NOWHERE = ["nope", "foo", "_x", "__nope__", "Count", "__wrapped__", "__members_", "called", "call_count"]
+# names pyanalyze, typeshed or the data model treat specially: always checked on every operand, also in the quick tier
+ATTR_SPECIAL = ["__dict__", "__class__", "__doc__", "__slots__", "__module__", "__name__", "__qualname__", "__weakref__",
+                "__annotations__", "__wrapped__", "__members__", "__bases__", "__mro__", "__self__", "__func__", "__file__",
+                "__all__", "__getattr__", "__call__", "__hash__", "__abstractmethods__", "__match_args__", "__objclass__",
+                "name", "value", "_value_", "_name_", "real", "imag", "count", "nope"]
+NATTR_PARTS = 8
+# sys holds interpreter state (stdout is redirected while pyanalyze runs, ...): only its stable attributes are compared
+_STABLE = (int, float, str, bytes, bool, tuple, type(None), types.BuiltinFunctionType, types.ModuleType)
+
+
+def hid(kind, key, bits=40):
+    """content-derived id (stable across runs and independent of the order rows are produced in)"""
+    return int(hashlib.sha1(("%s\0%s" % (kind, key)).encode("utf8", "backslashreplace")).hexdigest()[:bits // 4], 16) + 1
+
+
+def attr_universe():
+    """(operands, names): names = union of dir() over the operands + names nobody has. CPython only."""
+    ns = oracle_ns()
+    names = set(ATTR_NOWHERE) | set(ATTR_SPECIAL)
+    for a in ATTR_OPERANDS:
+        names |= set(dir(eval(a, ns)))
+    names = sorted(n for n in names if n.isidentifier())
+    return ATTR_OPERANDS, names
+
+
+def attr_pair_in_scope(o, name):
+    if o is sys:
+        try:
+            v = getattr(o, name)
+        except Exception:
+            return True
+        return isinstance(v, _STABLE) and name not in ("argv", "path", "last_traceback", "last_value", "last_type", "last_exc")
+    return True
+
+
+def attr_entries(pairs, names):
+    """pairs: [(operand index, name index)] -> entries like build_rows (row ids are content hashes). The CPython side is
+    evaluated in the very module pyanalyze imported, so __module__/__globals__-like values are the same objects."""
+    out = []
+    B = 1500
+    for b0 in range(0, len(pairs), B):
+        chunk = pairs[b0:b0 + B]
+        cases = [("attr", names[ni], ATTR_OPERANDS[ai], "") for ai, ni in chunk]
+        exprs = [expr_of(c) for c in cases]
+        verd, mod = pya_verdicts(exprs, batch=B, want_module=True)
+        ns = mod.__dict__
+        for (ai, ni), case, expr, (p, plit, codes) in zip(chunk, cases, exprs, verd):
+            o = eval(case[2], ns)
+            if not attr_pair_in_scope(o, case[1]):
+                continue
+            c, cval = cpy_outcome(ns, expr)
+            fl = attr_fact_bits(o, case[1], case[2])
+            ct = cv = pt = pvv = 0
+            if c == 0:
+                ct, cv = hid("t", cval[0], 28), hid("v", "%s\0%s" % cval)
+            if p == 0:
+                pt, pvv = hid("t", plit[0], 28), hid("v", "%s\0%s" % plit)
+            row = (2, ni, ai + 1, 0, TAGS[tag_of(o)], 0, fl, c, ct, cv, p, pt, pvv)
+            out.append({"case": case, "expr": expr, "row": row, "cpy": (c, cval), "pya": (p, plit, codes), "sidevals": None})
+    return out
+
+
+def attr_universe_key(names):
+    return hashlib.sha1(("|".join(ATTR_OPERANDS) + "#" + "|".join(names) + "#" + PRELUDE).encode()).hexdigest()[:16]
+
+
+def attr_stored(names):
+    """{(operand id, name id): row} parsed from the generated files, None if absent or built for another universe."""
+    try:
+        top = open(os.path.join(GEN, "AttrTables.lean")).read()
+    except OSError:
+        return None
+    if ("universe %s" % attr_universe_key(names)) not in top:
+        return None
+    rows = {}
+    for part in range(NATTR_PARTS):
+        try:
+            text = open(os.path.join(GEN, "AttrTables%d.lean" % part)).read()
+        except OSError:
+            return None
+        for m in re.finditer(r"^  r ((?:\d+ ){12}\d+)", text, re.M):
+            row = tuple(int(x) for x in m.group(1).split())
+            rows[(row[2], row[1])] = row
+    return rows
+
+
+def attr_sample_pairs(rng, names, per_group):
+    """quick tier: every special name on every operand + for every other name `per_group` operands of each kind group"""
+    ns = oracle_ns()
+    groups = {}
+    for ai, a in enumerate(ATTR_OPERANDS):
+        groups.setdefault(ATTR_GROUPS[tag_of(eval(a, ns))], []).append(ai)
+    special = set(ATTR_SPECIAL)
+    pairs = []
+    for ni, n in enumerate(names):
+        if n in special:
+            pairs += [(ai, ni) for ai in range(len(ATTR_OPERANDS))]
+        else:
+            for g in sorted(groups):
+                pairs += [(ai, ni) for ai in rng.sample(groups[g], min(per_group, len(groups[g])))]
+    return pairs
+
+
+def write_attr_tables(entries, names):
+    n = len(entries)
+    per = (n + NATTR_PARTS - 1) // NATTR_PARTS
+    for part in range(NATTR_PARTS):
+        chunk = entries[part * per:(part + 1) * per]
+        lines = ["import PyaModel.Spec.OpsSpec",
+                 "/-! GENERATED by harness/props/c19.py translate() from the live pyanalyze tree and CPython — do not edit.",
+                 "Part %d of the C19 attribute table. Legend: Generated/AttrTables.lean. -/" % part,
+                 "namespace Pya.C19", ""]
+        subs = []
+        for s0 in range(0, len(chunk), 400):
+            name = "attrTable%d_%d" % (part, s0 // 400)
+            subs.append(name)
+            body = ",\n".join("  r " + " ".join(str(x) for x in e["row"]) for e in chunk[s0:s0 + 400])
+            lines.append("def %s : List Row := [\n%s]\n" % (name, body))
+        lines.append("def attrTable%d : List Row := %s\n" % (part, " ++ ".join(subs) if subs else "[]"))
+        lines.append("theorem attrTable%d_agree : attrTable%d.all (fun x => D19 x || agree x) = true := by decide +kernel" % (part, part))
+        lines.append("theorem attrTable%d_conforms : attrTable%d.all conforms = true := by decide +kernel" % (part, part))
+        lines += ["", "end Pya.C19", ""]
+        lean.write_if_changed(os.path.join(GEN, "AttrTables%d.lean" % part), "\n".join(lines))
+    parts = ["attrTable%d" % i for i in range(NATTR_PARTS)]
+    top = ["import PyaModel.Generated.AttrTables%d" % i for i in range(NATTR_PARTS)]
+    top += ["/-! GENERATED by harness/props/c19.py translate() — do not edit.",
+            "The C19 attribute table: %d rows = every operand below x every attribute name any of them has (dir()) plus names" % n,
+            "nobody has; CPython's getattr outcome and pyanalyze's verdict, both obtained from the live tree. universe %s" % attr_universe_key(names),
+            "Rows: Spec/OpsSpec.lean `Row` with k = 2, op = name id, a = operand id; type/value ids are content hashes.",
+            "  operands: " + ", ".join("%d=%s" % (i + 1, s_) for i, s_ in enumerate(ATTR_OPERANDS)),
+            "  names: " + ", ".join("%d=%s" % (i, s_) for i, s_ in enumerate(names)),
+            "-/", "namespace Pya.C19", ""]
+    top.append("def attrTable : List Row := %s\n" % " ++ ".join(parts))
+    for nm, pred in (("agree", "(fun x => D19 x || agree x)"), ("conforms", "conforms")):
+        top.append("theorem attrTable_%s_all : attrTable.all %s = true := by\n  simp only [attrTable, List.all_append, Bool.and_eq_true]\n  exact %s\n" % (
+            nm, pred, _and_tree(["attrTable%d_%s" % (i, nm) for i in range(NATTR_PARTS)])))
+    top += ["end Pya.C19", ""]
+    lean.write_if_changed(os.path.join(GEN, "AttrTables.lean"), "\n".join(top))
+
+
+def translate_attr(ctx):
+    """Full regeneration in the thorough tier (and whenever the stored table is missing, was built for another universe,
+    or a re-computed row differs from it); otherwise (quick) a seeded, stratified sample of rows + every special name on
+    every operand is recomputed from the live tree and must equal the stored rows."""
+    _, names = attr_universe()
+    stored = None if ctx.big() else attr_stored(names)
+    entries = None
+    if stored is not None:
+        sample = attr_entries(attr_sample_pairs(ctx.rng, names, 1), names)
+        diff = [e for e in sample if stored.get((e["row"][2], e["row"][1])) != e["row"]]
+        if diff:
+            ctx.notes.append("attribute table: %d of %d re-computed rows differ from the stored table (e.g. %s); regenerating all of it"
+                             % (len(diff), len(sample), diff[0]["expr"]))
+        else:
+            entries = sample
+            ctx.extra["attr_table"] = "stored table confirmed on %d re-computed rows (of %d)" % (len(sample), len(stored))
+    if entries is None:
+        pairs = [(ai, ni) for ni in range(len(names)) for ai in range(len(ATTR_OPERANDS))]
+        entries = attr_entries(pairs, names)
+        write_attr_tables(entries, names)
+        ctx.extra["attr_table"] = "regenerated, %d rows (%d operands x %d names)" % (len(entries), len(ATTR_OPERANDS), len(names))
+    _STATE["attr_rows"] = entries
 
 
 # Python mirror of Spec/OpsSpec.lean `agree` (cross-checked against the Lean driver in stream rowcheck)
